@@ -344,9 +344,12 @@ func (g *TemplateGenerator) getTemplate(ctx context.Context) (string, *gojsonsch
 			continue
 		}
 		var remoteTemplate *RemoteTemplate
-		if cachedRemoteTemplate, ok := g.remoteTemplateCache[g.templateName]; !ok {
+		// The schema location is part of the cache key: two packages may
+		// share a template and still name different schemas.
+		cacheKey := g.templateName + "\x00" + g.templateSchema
+		if cachedRemoteTemplate, ok := g.remoteTemplateCache[cacheKey]; !ok {
 			remoteTemplate = NewRemoteTemplate(g.templateName, g.templateSchema)
-			g.remoteTemplateCache[g.templateName] = remoteTemplate
+			g.remoteTemplateCache[cacheKey] = remoteTemplate
 		} else {
 			remoteTemplate = cachedRemoteTemplate
 		}
